@@ -34,3 +34,4 @@ import TypedpyModel.Props.C04Alias
 #print axioms Typedpy.C04.accessor_example
 #print axioms Typedpy.C04.raw_accessor_leaks
 #print axioms Typedpy.C04.fixed_dict_reversed_today
+#print axioms Typedpy.C04.immutable_stepR_raises
